@@ -78,6 +78,7 @@ type Event struct {
 	Cls    []bool     `json:"cls"`
 	Ok     bool       `json:"ok"`
 	Xs     [][]int    `json:"xs"`
+	Sq     []int      `json:"sq"` // ceil(length) of every segment of the last output sub-path (certificate, checked by the spec)
 }
 
 func (s *Scenario) q() int {
@@ -258,6 +259,22 @@ func observe(s *Scenario, guard bool) (ev Event, kind string, msg any) {
 		}
 		ev.Out[k] = pl
 	}
+	ev.Sq = []int{}
+	if n := len(ev.Out); n > 0 {
+		pl := ev.Out[n-1]
+		for i := 0; i+1 < len(pl); i++ {
+			dx, dy := float64(pl[i+1][0]-pl[i][0]), float64(pl[i+1][1]-pl[i][1])
+			l2 := dx*dx + dy*dy
+			q := int(math.Ceil(math.Sqrt(l2)))
+			for float64(q)*float64(q) < l2 {
+				q++
+			}
+			for q > 0 && float64(q-1)*float64(q-1) >= l2 {
+				q--
+			}
+			ev.Sq = append(ev.Sq, q)
+		}
+	}
 	return
 }
 
@@ -306,21 +323,32 @@ func judge(c *core.Ctx, evs []Event, workers int) ([]verdict, bool) {
 	return vs, true
 }
 
+// featureTag: curve type + the scenario feature the specification computed (exact predicates of Curves.tla).
 func featureTag(s *Scenario) string {
 	t := s.Cv.Type
 	switch {
 	case s.F["chordrx"]:
 		t += "+chord-equals-rx"
-	case s.F["overshoot"]:
-		t += "+collinear-overshoot"
+	case s.F["fold"] && s.F["collinear"]:
+		t += "+fold+collinear"
+	case s.F["fold"]:
+		t += "+fold"
 	case s.F["collinear"]:
 		t += "+collinear"
 	}
+	return t
+}
+
+func variantTag(s *Scenario) string {
+	t := ""
 	if s.F["startend"] {
 		t += "+start=end"
 	}
 	if s.Closed {
 		t += "+closed"
+	}
+	if s.Pre {
+		t += "+second-subpath"
 	}
 	return t
 }
@@ -335,7 +363,11 @@ func mismatches(s *Scenario, v verdict, ev *Event) []core.Mismatch {
 		if len(ev.Out) > 0 {
 			det += fmt.Sprintf("; output sub-path %d has %d vertices: %v", len(ev.Out), len(ev.Out[len(ev.Out)-1]), truncPts(ev.Out[len(ev.Out)-1]))
 		}
-		ms = append(ms, core.Mismatch{Signature: s.Op + "-" + w + ":" + featureTag(s), Detail: det})
+		sig := s.Op + "-" + w + ":" + featureTag(s)
+		if w == "structure" && s.F["startend"] {
+			sig += "+start=end"
+		}
+		ms = append(ms, core.Mismatch{Signature: sig, Detail: det})
 	}
 	return ms
 }
@@ -349,7 +381,11 @@ func truncPts(p [][2]int) string {
 }
 
 func panicMismatch(s *Scenario, kind string, msg any) core.Mismatch {
-	return core.Mismatch{Signature: kind + "-" + s.Op + ":" + latgeo.PanicClass(msg) + "+" + featureTag(s), Detail: fmt.Sprintf("%s: %v", s.describe(), msg)}
+	cls := latgeo.PanicClass(msg)
+	if strings.Contains(cls, "index_out_of_range") {
+		cls = "index-out-of-range"
+	}
+	return core.Mismatch{Signature: kind + "-" + s.Op + ":" + cls + variantTag(s), Detail: fmt.Sprintf("%s: %v", s.describe(), msg)}
 }
 
 func (Driver) Replay(c *core.Ctx, raw json.RawMessage) []core.Mismatch {
@@ -373,7 +409,7 @@ func (Driver) Replay(c *core.Ctx, raw json.RawMessage) []core.Mismatch {
 }
 
 func cfg(fam string, n, num int) string {
-	return fmt.Sprintf("SPECIFICATION Spec\nCONSTANTS Fam = \"%s\"\n N = %d\n Num = %d\nCHECK_DEADLOCK FALSE\n", fam, n, num)
+	return fmt.Sprintf("SPECIFICATION Spec\nCONSTANTS Fam = \"%s\"\n N = %d\n Num = %d\nINVARIANT CurveLaws\nCHECK_DEADLOCK FALSE\n", fam, n, num)
 }
 
 var rotEmbs = []latgeo.Emb{latgeo.Symmetries[1], latgeo.Translate, latgeo.Huge, latgeo.Pyth, latgeo.Rot17, latgeo.Symmetries[4], {Name: "scale0.25", A: 0.25, D: 0.25}}
@@ -423,7 +459,7 @@ func (d Driver) Run(c *core.Ctx) error {
 					t0n = 13
 				}
 				// variant: open / closed / preceded by a line sub-path
-				closed, pre := h%3 == 1, h%3 == 2
+				closed, pre := h%4 == 1 || h%4 == 3, h%4 >= 2
 				var local []item
 				emit := func(op string, tn, td int, e latgeo.Emb) {
 					s := base
@@ -466,13 +502,13 @@ func (d Driver) Run(c *core.Ctx) error {
 		go func() { defer wg.Done(); f() }()
 	}
 	stage(func() {
-		collect("quad", tlc.Opts{Module: "Curves", Config: cfg("quad", 3, c.Pick(1200, 0)), Seed: c.Seed, Workers: 2})
+		collect("quad", tlc.Opts{Module: "Curves", Config: cfg("quad", 3, c.Pick(350, 0)), Seed: c.Seed, Workers: 2})
 	})
 	stage(func() {
-		collect("cubic", tlc.Opts{Module: "Curves", Config: cfg("cubic", 3, c.Pick(1500, 20000)), Seed: c.Seed + 1, Workers: 2})
+		collect("cubic", tlc.Opts{Module: "Curves", Config: cfg("cubic", 3, c.Pick(400, 3000)), Seed: c.Seed + 1, Workers: 2})
 	})
 	stage(func() {
-		collect("arc", tlc.Opts{Module: "Curves", Config: cfg("arc", 3, c.Pick(500, 0)), Seed: c.Seed + 2, Workers: 2})
+		collect("arc", tlc.Opts{Module: "Curves", Config: cfg("arc", 3, c.Pick(150, 1500)), Seed: c.Seed + 2, Workers: 2})
 	})
 	wg.Wait()
 	c.Count(nCalls, 0, 0)
@@ -484,7 +520,7 @@ func (d Driver) Run(c *core.Ctx) error {
 		defer dump.Close()
 	}
 	// judge in chunks (memory of the deserialised trace), each chunk with parallel workers
-	chunk := 12000
+	chunk := 20000
 	var nontriv int64
 	seen := map[string]bool{}
 	for lo := 0; lo < len(items); lo += chunk {
